@@ -158,42 +158,61 @@ def spec_case(name, rule, k, outty, specfn, nan=True, base=None):
 
 
 def definition_cases(T, tier):
+    """the GLSL definitions, for the scalar overload and for every vector length (each component against the definition applied to the components of the
+    operands, including the mixed vector / scalar overloads)"""
     cs = []
     sc = G.scalar(T)
     w = sc.elem * 8
-    tg = sc.tag
     c = lambda x: S.const(w, x)
-    X = lambda nm='x': S.lane(nm, sc, 0)
-    pX, pY, pZ = Par('x', sc), Par('y', sc), Par('z', sc)
-
-    def add(name, rule, params, body, specfn, outty=sc, nan=True, base=None, kname=None):
-        k = K('%s_%s' % (kname or ''.join(ch if ch.isalnum() else '_' for ch in name), tg), [Par('o', outty, False)] + params, body, CFG)
-        cs.append(spec_case('%s<%s>' % (name, tg), rule, k, outty, specfn, nan=nan, base=base))
-    fn1 = lambda f: (lambda: {0: S.fn(f, X())})
-    add('abs(x)', 'definition', [pX], '*o = abs(*x);', lambda: {0: S.fabs(X())})
-    add('floor(x)', 'definition', [pX], '*o = floor(*x);', fn1('floor'))
-    add('ceil(x)', 'definition', [pX], '*o = ceil(*x);', fn1('ceil'))
-    add('trunc(x)', 'definition', [pX], '*o = trunc(*x);', fn1('trunc'))
-    add('round(x)', 'definition', [pX], '*o = round(*x);', fn1('round'))
-    add('fract(x)', 'definition', [pX], '*o = fract(*x);', lambda: {0: X() - S.fn('floor', X())})
-    add('mod(x,y)', 'definition', [pX, pY], '*o = mod(*x, *y);', lambda: {0: X() - X('y') * S.fn('floor', X() / X('y'))})
-    add('sign(x)', 'definition', [pX], '*o = sign(*x);', lambda: {0: S.sel(c(0).lt(X()), c(1), S.sel(X().lt(c(0)), c(-1), c(0)))}, nan=False)
-    add('min(x,y)', 'definition', [pX, pY], '*o = min(*x, *y);', lambda: {0: S.gmin(X(), X('y'))})
-    add('max(x,y)', 'definition', [pX, pY], '*o = max(*x, *y);', lambda: {0: S.gmax(X(), X('y'))})
-    add('clamp(x,lo,hi)', 'definition', [pX, pY, pZ], '*o = clamp(*x, *y, *z);', lambda: {0: S.gmin(S.gmax(X(), X('y')), X('z'))})
-    add('step(edge,x)', 'definition', [pY, pX], '*o = step(*y, *x);', lambda: {0: S.sel(X().lt(X('y')), c(0), c(1))}, nan=False)
-    add('mix(x,y,a)', 'definition', [pX, pY, pZ], '*o = mix(*x, *y, *z);', lambda: {0: X() * (1 - X('z')) + X('y') * X('z')})
     bt = G.scalar('bool')
-    add('mix(x,y,bool)', 'definition', [pX, pY, Par('b', bt)], '*o = mix(*x, *y, *b);', lambda: {0: S.sel(tm.slice_(tm.inp('b', 0, 8), 0, 1), X('y'), X())}, kname='mixb')
+    for Lv in (0, 1, 2, 3, 4):
+        ty = sc if Lv == 0 else G.vec(Lv, T)
+        bty = bt if Lv == 0 else G.vec(Lv, 'bool')
+        lanes = [0] if Lv == 0 else list(range(Lv))
+        tg = sc.tag if Lv == 0 else ty.tag
+        pX, pY, pZ = Par('x', ty), Par('y', ty), Par('z', ty)
+        sY, sZ = Par('y', sc), Par('z', sc)
+        X = lambda nm='x', i=0, ty=ty: S.lane(nm, ty, i)
+        Sx = lambda nm: S.lane(nm, sc, 0)
 
-    def smooth():
-        e0, e1, x = X('y'), X('z'), X()
-        t = S.gclamp((x - e0) / (e1 - e0), c(0), c(1))
-        return {0: t * t * (3 - 2 * t)}
-    add('smoothstep(e0,e1,x)', 'definition', [pY, pZ, pX], '*o = smoothstep(*y, *z, *x);', smooth, nan=False)
-    add('fma(a,b,c)', 'definition', [pX, pY, pZ], '*o = fma(*x, *y, *z);', lambda: {0: X() * X('y') + X('z')})
-    add('isnan(x)', 'definition', [pX], '*o = isnan(*x);', lambda: {0: tm.zext(tm.fcmp('uno', X().t, tm.fconst(w, 0.0)), 8)}, outty=bt)
-    add('isinf(x)', 'definition', [pX], '*o = isinf(*x);', lambda: {0: tm.zext(tm.fcmp('oeq', tm.fabs(X().t), tm.fconst(w, float('inf'))), 8)}, outty=bt)
+        def add(name, rule, params, body, lanefn, outty=None, nan=True, kname=None, ty=ty, tg=tg, lanes=lanes):
+            outty = outty or ty
+            k = K('%s_%s' % (kname or ''.join(ch if ch.isalnum() else '_' for ch in name), tg), [Par('o', outty, False)] + params, body, CFG)
+            cs.append(spec_case('%s<%s>' % (name, tg), rule, k, outty, lambda: {i: lanefn(i) for i in lanes}, nan=nan))
+        fn1 = lambda f: (lambda i: S.fn(f, X('x', i)))
+        add('abs(x)', 'definition', [pX], '*o = abs(*x);', lambda i: S.fabs(X('x', i)))
+        add('floor(x)', 'definition', [pX], '*o = floor(*x);', fn1('floor'))
+        add('ceil(x)', 'definition', [pX], '*o = ceil(*x);', fn1('ceil'))
+        add('trunc(x)', 'definition', [pX], '*o = trunc(*x);', fn1('trunc'))
+        add('round(x)', 'definition', [pX], '*o = round(*x);', fn1('round'))
+        add('fract(x)', 'definition', [pX], '*o = fract(*x);', lambda i: X('x', i) - S.fn('floor', X('x', i)))
+        add('mod(x,y)', 'definition', [pX, pY], '*o = mod(*x, *y);', lambda i: X('x', i) - X('y', i) * S.fn('floor', X('x', i) / X('y', i)))
+        add('sign(x)', 'definition', [pX], '*o = sign(*x);', lambda i: S.sel(c(0).lt(X('x', i)), c(1), S.sel(X('x', i).lt(c(0)), c(-1), c(0))), nan=False)
+        add('min(x,y)', 'definition', [pX, pY], '*o = min(*x, *y);', lambda i: S.gmin(X('x', i), X('y', i)))
+        add('max(x,y)', 'definition', [pX, pY], '*o = max(*x, *y);', lambda i: S.gmax(X('x', i), X('y', i)))
+        add('clamp(x,lo,hi)', 'definition', [pX, pY, pZ], '*o = clamp(*x, *y, *z);', lambda i: S.gmin(S.gmax(X('x', i), X('y', i)), X('z', i)))
+        # step: 0 if x < edge, otherwise 1 -- total, also for NaN operands (the comparison is false)
+        add('step(edge,x)', 'definition', [pY, pX], '*o = step(*y, *x);', lambda i: S.sel(X('x', i).lt(X('y', i)), c(0), c(1)))
+        add('mix(x,y,a)', 'definition', [pX, pY, pZ], '*o = mix(*x, *y, *z);', lambda i: X('x', i) * (1 - X('z', i)) + X('y', i) * X('z', i))
+        add('mix(x,y,bool)', 'definition', [pX, pY, Par('b', bty)], '*o = mix(*x, *y, *b);',
+            lambda i, bty=bty: S.sel(tm.slice_(tm.inp('b', bty.lanes[i] * 8 if Lv else 0, 8), 0, 1), X('y', i), X('x', i)), kname='mixb')
+
+        def smooth(e0, e1, x):
+            t = S.gclamp((x - e0) / (e1 - e0), c(0), c(1))
+            return t * t * (3 - 2 * t)
+        add('smoothstep(e0,e1,x)', 'definition', [pY, pZ, pX], '*o = smoothstep(*y, *z, *x);', lambda i: smooth(X('y', i), X('z', i), X('x', i)), nan=False)
+        add('fma(a,b,c)', 'definition', [pX, pY, pZ], '*o = fma(*x, *y, *z);', lambda i: X('x', i) * X('y', i) + X('z', i))
+        add('isnan(x)', 'definition', [pX], '*o = isnan(*x);', lambda i: tm.zext(tm.fcmp('uno', X('x', i).t, tm.fconst(w, 0.0)), 8), outty=bty)
+        add('isinf(x)', 'definition', [pX], '*o = isinf(*x);', lambda i: tm.zext(tm.fcmp('oeq', tm.fabs(X('x', i).t), tm.fconst(w, float('inf'))), 8), outty=bty)
+        if Lv:
+            # the overloads that take a scalar for some operands
+            add('mod(v,s)', 'definition', [pX, sY], '*o = mod(*x, *y);', lambda i: X('x', i) - Sx('y') * S.fn('floor', X('x', i) / Sx('y')), kname='mod_vs')
+            add('min(v,s)', 'definition', [pX, sY], '*o = min(*x, *y);', lambda i: S.gmin(X('x', i), Sx('y')), kname='min_vs')
+            add('max(v,s)', 'definition', [pX, sY], '*o = max(*x, *y);', lambda i: S.gmax(X('x', i), Sx('y')), kname='max_vs')
+            add('clamp(v,s,s)', 'definition', [pX, sY, sZ], '*o = clamp(*x, *y, *z);', lambda i: S.gmin(S.gmax(X('x', i), Sx('y')), Sx('z')), kname='clamp_vss')
+            add('step(s,v)', 'definition', [sY, pX], '*o = step(*y, *x);', lambda i: S.sel(X('x', i).lt(Sx('y')), c(0), c(1)), kname='step_sv')
+            add('mix(v,v,s)', 'definition', [pX, pY, sZ], '*o = mix(*x, *y, *z);', lambda i: X('x', i) * (1 - Sx('z')) + X('y', i) * Sx('z'), kname='mix_vvs')
+            add('smoothstep(s,s,v)', 'definition', [sY, sZ, pX], '*o = smoothstep(*y, *z, *x);', lambda i: smooth(Sx('y'), Sx('z'), X('x', i)), nan=False, kname='smoothstep_ssv')
     return cs
 
 
